@@ -116,6 +116,11 @@ def gen_module(rng, modname, with_async_gen=False):
                "    yield _r.yielded(_t, _r.yielded(p, a))\n    yield _r.yielded(_t, _r.yielded(p, b'x'))\n    return _r.ret(_t, 1.5)\n\n")
     src.append("def gen_raise(a):\n" + enter_line("gen_raise", ["a"]) +
                "    yield _r.yielded(_t, a)\n    raise _r.raising(_t, KeyError('g'))\n\n")
+    # a container first, then a bare value of one of its element types (and the like for tuple / dict)
+    src.append("def gen_mixed(a):\n" + enter_line("gen_mixed", ["a"]) +
+               "    yield _r.yielded(_t, [a])\n    yield _r.yielded(_t, a)\n    yield _r.yielded(_t, (a, 'ab'))\n"
+               "    yield _r.yielded(_t, 'ab')\n    yield _r.yielded(_t, {'k': 2.5})\n    yield _r.yielded(_t, 2.5)\n    _r.ret(_t, None)\n\n")
+    funcs.append({"qual": "gen_mixed", "call": "gen_mixed", "kind": "generator", "mk": PARAM_SHAPES[0][2], "exit": "gen", "params": ["a"]})
     for q in ("gen", "gen_ret", "gen_raise", "gen_delegate"):
         funcs.append({"qual": q, "call": q, "kind": "generator", "mk": PARAM_SHAPES[0][2], "exit": "gen", "params": ["a"]})
     # coroutines
